@@ -309,8 +309,14 @@ pub fn exec(s: &mut CrdtSession, toks: &[&str], enc: TextEncoding) -> Vec<String
             };
             let op = legacy::Op { action: legacy::OpType::Delete, obj: legacy::ObjectId::Root, key: legacy::Key::Map(key.into()),
                 pred: pred.into_iter().collect(), insert: false };
-            let e = ExpandedChange { operations: vec![op], actor_id: ActorId::from(vec![2u8]), hash: None, seq: 1,
-                start_op: std::num::NonZeroU64::new(2).unwrap(), time: 0, message: None, deps: vec![h1], extra_bytes: vec![] };
+            // an EMPTY change (no ops) whose start_op is / is not one past the max_op of its dependencies
+            let (operations, start, what) = match toks[1] {
+                "empty-gap" => (vec![], 10u64, "an applied change without ops whose start_op is beyond max_op + 1 of its dependencies"),
+                "empty-nogap" => (vec![], 2u64, "an applied change without ops"),
+                _ => (vec![op], 2u64, "an applied change with a delete op that names no predecessor"),
+            };
+            let e = ExpandedChange { operations, actor_id: ActorId::from(vec![2u8]), hash: None, seq: 1,
+                start_op: std::num::NonZeroU64::new(start).unwrap(), time: 0, message: None, deps: vec![h1], extra_bytes: vec![] };
             let c = Change::from(e);
             match d.apply_changes(vec![c.clone()]) {
                 Err(e) => res.push(format!("#apply-rejected {}", e)),
@@ -322,7 +328,7 @@ pub fn exec(s: &mut CrdtSession, toks: &[&str], enc: TextEncoding) -> Vec<String
                             let b: Vec<Vec<u8>> = l.get_changes(&[]).iter().map(|x| x.raw_bytes().to_vec()).collect();
                             if a != b { res.push("! C11 sig=change-bytes loaded document returns different changes".into()); }
                         }
-                        Err(e) => res.push(format!("! C11 sig=load-failed a document holding an applied change with a delete op that names no predecessor saves into bytes that do not load: {}", e)),
+                        Err(e) => res.push(format!("! C11 sig=load-failed a document holding {} saves into bytes that do not load: {}", what, e)),
                     }
                 }
             }
@@ -719,7 +725,7 @@ pub fn generate(r: &mut Rng, _opts: &BTreeMap<String, String>, sess: &mut Sessio
     PREV.lock().unwrap().clear();
     if r.chance(1, 50) {
         exec_line(sess, "crdt.new r0 cp 01", out);
-        exec_line(sess, &format!("crdt.dc.probe {}", ["del-nopred", "del-nopred-missing-key", "control"][r.below(3) as usize]), out);
+        exec_line(sess, &format!("crdt.dc.probe {}", ["del-nopred", "del-nopred-missing-key", "control", "empty-gap", "empty-nogap"][r.below(5) as usize]), out);
         out.count("probes");
     }
     match r.below(10) {
